@@ -475,11 +475,15 @@ impl Command for Seek {
     type Response = ();
 
     fn command(&self) -> RawCommand {
-        let time = match self.0 {
-            SeekMode::Absolute(pos) => format!("{:.3}", pos.as_secs_f64()),
-            SeekMode::Forward(time) => format!("+{:.3}", time.as_secs_f64()),
-            SeekMode::Backward(time) => format!("-{:.3}", time.as_secs_f64()),
+        let (sign, time) = match self.0 {
+            SeekMode::Absolute(pos) => ("", pos),
+            SeekMode::Forward(time) => ("+", time),
+            SeekMode::Backward(time) => ("-", time),
         };
+
+        // Round in integer arithmetic, a float cannot hold long durations to the millisecond
+        let millis = (time.as_nanos() + 500_000) / 1_000_000;
+        let time = format!("{sign}{}.{:03}", millis / 1000, millis % 1000);
 
         RawCommand::new("seekcur").argument(time)
     }
